@@ -125,4 +125,17 @@ example : selectSource { named := false, fields :=
 example : selectSource { named := false, fields :=
     [{ tyBacktrace := true }, {}] } = .ok (some 1) := by rfl
 
+/-- An ignored variant has no source, whatever its fields are and whatever attributes they carry
+(`#[error(source)]` inside an ignored variant does not bring it back), and it is never an error. -/
+theorem ignored_variant_is_none (sh : Shape) : variantSource true sh = .ok none := rfl
+
+/-- A variant that is not ignored is treated exactly like a struct of the same shape. -/
+theorem enabled_variant_is_documented (sh : Shape) : variantSource false sh = documentedSource sh := by
+  simp [variantSource, source_is_documented]
+
+/-- Non-vacuity: `#[error(ignore)] V { #[error(source)] cause: E }` against the same variant not ignored. -/
+example : variantSource true { named := true, fields := [{ name := .other, tyBacktrace := false, attr := some [.source] }] } = .ok none
+    ∧ variantSource false { named := true, fields := [{ name := .other, tyBacktrace := false, attr := some [.source] }] } = .ok (some 0) := by
+  constructor <;> rfl
+
 end Dm.Props.C09
